@@ -22,7 +22,10 @@ var posType = reflect.TypeOf(token.Pos(0))
 
 // randomDecorate scatters decorations and spacing over the tree (G2).
 func randomDecorate(r *rand.Rand, f *dst.File, density int) {
-	decs := []string{"// c", "/* b */", "\n", "/* multi\nline */", "// longer line comment", "/*x*/", "\n", "//", "other"}
+	randomDecorateWith(r, f, density, []string{"// c", "/* b */", "\n", "/* multi\nline */", "// longer line comment", "/*x*/", "\n", "//", "other"})
+}
+
+func randomDecorateWith(r *rand.Rand, f *dst.File, density int, decs []string) {
 	dst.Inspect(f, func(n dst.Node) bool {
 		if n == nil {
 			return true
